@@ -160,6 +160,8 @@ def run_conv(c, lp, config, Model):
     put(2, lambda: lp.empty_structured_array(n, names, non_sampling_parameters=nsp), enc_struct)
     put(3, lambda: lp.empty_structured_array(
         n, dtype=lp.get_dtype(names, non_sampling_parameters=nsp), non_sampling_parameters=nsp), enc_struct)
+    if c.get("fields") and nsp:
+        put(25, lambda: lp.empty_structured_array(n, dtype=[(k, kd) for k, kd in c["fields"]]), enc_struct)
     if n <= 1:
         ps = list(data[0]) if n else []
         how = c.get("params_as", "list")
@@ -204,6 +206,11 @@ def run_conv(c, lp, config, Model):
                                                       non_sampling_parameters=nsp), enc_struct)
         put(17, lambda: lp.dataframe_to_live_points(pd.DataFrame(lp.live_points_to_dict(X, names)),
                                                     non_sampling_parameters=nsp), enc_struct)
+        if c.get("qnames"):
+            put(22, lambda: lp.live_points_to_array(X, list(c["qnames"])), enc_mat)
+            put(23, lambda: lp.live_points_to_array(X, list(c["qnames"]), copy=True), enc_mat)
+        if c.get("dnames"):
+            put(24, lambda: lp.live_points_to_dict(X, list(c["dnames"])), enc_dict)
         put(18, lambda: lp.unstructured_view(X, names), enc_mat)
         if model is not None and not isinstance(model, dict):
             put(19, lambda: model.unstructured_view(X), enc_mat)
